@@ -70,6 +70,63 @@ Theorem C01_pgp_no_panic : forall c P private stream,
 Proof. exact Props.C12.C12_no_panic. Qed.
 Print Assumptions C01_pgp_no_panic.
 
+(* ---- the families of structured inputs added to the generator, as statements about the models ---- *)
+
+(* JWT members of any JSON shape (strings, numbers, literals, arrays and objects of anything, nested to any
+   depth): with the header and the payload given as the full trees encoding/json builds, building the
+   attributes of a token cannot panic, and the description is the one of C18's model, which sees arrays and
+   objects only as "array" and "object".  [jwt_tparams] is the table regenerated from jwtParams on every run;
+   the proof needs every converter named there to be one of str / sigAlg / unixTime (instance lemma
+   jwt_table_modelled): a new converter breaks this obligation until it is modelled. *)
+Theorem C01_jwt_attributes_total : forall (h p : jsmap) (sig : bytes),
+  (forall site, attrs_tree jwt_tparams h <> Panic site) /\
+  (forall site, attrs_tree jwt_tparams p <> Panic site) /\
+  describe_tree jwt_tparams h p sig
+  = Ok (Model.Jwt.describe_jwt (Model.Jwt.mkjwt (shallow_map h) (shallow_map p) sig)).
+Proof.
+  intros h p sig. split; [intros; apply jwt_attrs_tree_no_panic|split; [intros; apply jwt_attrs_tree_no_panic|apply jwt_describe_tree_total]].
+Qed.
+Print Assumptions C01_jwt_attributes_total.
+
+Theorem C01_jwt_converters_modelled :
+  forallb (fun p => modelled (tp_conv p)) jwt_tparams = true.
+Proof. exact jwt_table_modelled. Qed.
+Print Assumptions C01_jwt_converters_modelled.
+
+(* what the array-valued members are generated for: a converter that joined the elements of an array with an
+   unchecked v[i].(string) (NOT in the repository) panics on {"aud":["svc-a",7]}; with s, ok := v[i].(string)
+   it is total *)
+Theorem C01_unchecked_element_assertion_refuted :
+  exists m site, attrs_tree aud_unchecked m = Panic site.
+Proof. exact unchecked_element_assertion_panics. Qed.
+Print Assumptions C01_unchecked_element_assertion_refuted.
+
+Theorem C01_checked_element_assertion_total : forall v, exists o, convert_tree TListChecked v = Ok o.
+Proof. exact checked_element_assertion_total. Qed.
+Print Assumptions C01_checked_element_assertion_total.
+
+(* explicit EC parameters with any component values - base points of every length and prefix included - in the
+   four containers that reach the curve matcher *)
+Theorem C01_explicit_ec_no_panic_in_files : forall kind pem state p s,
+  Model.Curve.curve_name p <> Panic s /\ Model.Curve.explicit_attrs p <> Panic s /\
+  Model.Curve.container_info kind pem state p <> Panic s.
+Proof. exact Props.C16.C16_no_failure_in_files. Qed.
+Print Assumptions C01_explicit_ec_no_panic_in_files.
+
+(* what the short base points are generated for: comparing the halves of an uncompressed point in place
+   (NOT in the repository) panics on every point shorter than 1 + len(BaseX), where the append-and-compare
+   form of the repository answers false; wherever the slices exist the two forms agree *)
+Theorem C01_base_point_sliced_refuted : forall gx gy base, (length base < 1 + length gx)%nat ->
+  (exists site, uncompressed_sliced gx gy base = Panic site) /\
+  (gx <> [] -> uncompressed_appended gx gy base = false).
+Proof. exact sliced_panics_when_short. Qed.
+Print Assumptions C01_base_point_sliced_refuted.
+
+Theorem C01_base_point_forms_agree : forall gx gy base, (1 + length gx <= length base)%nat ->
+  uncompressed_sliced gx gy base = Ok (uncompressed_appended gx gy base).
+Proof. exact sliced_agrees. Qed.
+Print Assumptions C01_base_point_forms_agree.
+
 (* the command-line tool: never crashes, blocks only on a FIFO named explicitly as an argument *)
 Theorem C01_cli_never_crashes : forall fs argv stdin es st,
   Model.Walk.main_run Model.Walk.repaired fs argv stdin = (es, st) ->
